@@ -361,4 +361,5 @@ UNITS = [U_TAIL, U_SCALE, U_RAD]
 
 # compute_far_field keeps nothing between calls but its declared results (frame clause stated with C14): the table of a
 # request is a function of (model, currents, request) -- without it the clauses above would only hold for the first request
-EXTRA_UNITS = [('contracts.C14', 'U_ASSIGNS')]
+# the power that normalises the dBi table is the net input power of the solution (Mininec.compute: units of C07)
+EXTRA_UNITS = [('contracts.C14', 'U_ASSIGNS'), ('contracts.C07', 'U_COMPUTE'), ('contracts.C07', 'U_POWER2')]
